@@ -7,14 +7,17 @@ PROP = "C03"
 def run(tier, seed, t0):
     return _sess.run_session_check(
         PROP, tier, seed, t0,
-        families=[("content", 500, 10000), ("rpc", 100, 1000), ("listeners", 60, 600), ("mixed", 200, 3000)],
+        families=[("content", 500, 10000), ("rpc", 100, 1000), ("listeners", 60, 600), ("undrained", 1, 6),
+                  ("mixed", 200, 3000)],
         own_kinds=('content',),
         mc_jobs=[("MC_Conn_chclose_q.cfg", None, None), ("MC_Conn_consumer.cfg", None, "thorough")],
         rule="1-3 channels x 1-2 consumers (+ return listeners, + basic.get answers): 1-4 messages per channel with body "
              "lengths 0/1/2/5/64/1000/5000 in random partitions into body frames; the frames of different channels are "
              "interleaved at frame granularity in a seeded order, sent in bursts, and the byte stream is read in seeded "
              "segmentations (1, 2, 3, 7, 8, 9, 50, 4096 bytes, forced would-blocks); consumers are drained late or only at "
-             "the end while replies to other calls must still arrive. non-trivial = some message is split over >= 2 body "
+             "the end while replies to other calls must still arrive; plus a consumer that is not read at all while 1500 "
+             "(quick) to 4200 deliveries queue up for it, with another consumer's deliveries and ordinary replies sent behind "
+             "that backlog. non-trivial = some message is split over >= 2 body "
              "frames or frames of two channels interleave; distinct = distinct step lists",
         nontrivial=lambda s: any(x.get("do") == "srv" and len(x["frames"]) >= 3 for x in s["steps"]),
         assumptions=_sess.COMMON_ASSUMPTIONS + [
